@@ -50,7 +50,10 @@ def history_script(r, docs):
 
 def observe(text, allow):
     """canonical observation of one parse: outcome, dump, renderings"""
-    return pyscript.run_script([], [parse_op(0, allow, 0, 1, text), Op(82), Op(80, 0), Op(81, 0)])
+    try:
+        return pyscript.run_script([], [parse_op(0, allow, 0, 1, text), Op(82), Op(80, 0), Op(81, 0)])
+    except RecursionError:
+        return 'raise builtins.RecursionError'
 
 
 def fresh_process(cases):
@@ -122,6 +125,21 @@ def run(v, tier, st, pr):
     for i in bad[:3]:
         fails.append({'cause': 'oracle', 'clause': 'parsing concurrently in 16 threads gives a different result than parsing alone',
                       'input': {'kind': 'document', 'text_hex': hexs(docs[i][0]), 'text': docs[i][0]}})
+    # interpreter-wide settings (recursion limit and the like) may not be touched by a parse: a document nested far beyond
+    # the limit and one far below it behave the same whether other parses run at the same time or not
+    deep = [('Table t {\n  id decimal' + '(' * k + '1' + ')' * k + '\n  n int\n  m decimal' + '(' * k + '2' + ')' * k + '\n}\n', False) for k in (30, 400)]
+    with ThreadPoolExecutor(1) as ex:
+        deep_alone = list(ex.map(lambda d: observe(*d), deep))
+    dwork = [(i, d) for i, d in enumerate(deep)] * 12 + [(None, d) for d in docs[:40]] * 2
+    r.shuffle(dwork)
+    with ThreadPoolExecutor(16) as ex:
+        dconc = list(ex.map(lambda w: (w[0], observe(*w[1])), dwork))
+    for i, o in dconc:
+        if i is not None and o != deep_alone[i]:
+            fails.append({'cause': 'oracle', 'clause': 'a deeply nested document parsed while other parses run behaves differently than parsed alone (%s vs %s)'
+                          % (o.split(';')[0][:60], deep_alone[i].split(';')[0][:60]),
+                          'input': {'kind': 'document', 'text_hex': hexs(deep[i][0]), 'text': deep[i][0][:200] + '...'}})
+            break
     # (iv) nothing created for a parse stays reachable once the caller drops the result (also for failed parses)
     from pydbml.parser import parser as parser_mod
     from pydbml import PyDBML
